@@ -165,6 +165,61 @@ void builtin_with_target(vf::Ctx& c, vf::RunCfg<T> const& cfg, std::vector<std::
     ++c.sub;
 }
 
+// the same with a campaign that already holds more than 2^32 calls (a result of an earlier, long run that was read back):
+// the combination carries the total number of calls, and nothing in the stop decision may depend on its size
+template <typename T, typename R>
+void builtin_with_target_after_long_campaign(vf::Ctx& c, vf::RunCfg<T> const& cfg, std::vector<std::size_t> const& calls, T target, bool& judged)
+{
+    using Chk = typename R::Chk;
+    auto go = [](Chk const&) { return true; };
+    // scale of the integrand from a short run
+    Chk const probe = R::run(cfg, R::fresh(cfg), std::vector<std::size_t>{2000}, go);
+    long double const E0 = probe.results()[0].value(), S1 = probe.results()[0].error();
+    if (!(std::fabs(E0) > 0) || !(S1 > 0)) { c.label("boundary-ambiguous-not-judged"); return; }
+    std::size_t const N0 = std::size_t(5000000000ull) + calls.size();
+    // an earlier campaign whose error is of the order of the target
+    long double const S0 = std::fabs(E0) * static_cast<long double>(target) * 3;
+    hep::mc_result<T> const m = hep::create_result<T>(N0, N0, N0, static_cast<T>(E0), static_cast<T>(S0));
+    Chk start = R::fresh(cfg);
+    start.add(hep::plain_result<T>(std::vector<hep::distribution_result<T>>(), m.calls(), m.non_zero_calls(), m.finite_calls(), m.sum(), m.sum_of_squares()), start.generator());
+    {
+        // as it would be in practice: read back from text
+        std::istringstream in(vf::text_of(start));
+        start = R::load(in);
+    }
+    Chk const full = R::run(cfg, start, calls, go);
+    std::size_t const n = calls.size();
+    std::size_t must_stop = n + 1;
+    bool ambiguous = false;
+    for (std::size_t j = 2; j <= n + 1; ++j)
+    {
+        long double sw = 0, swe = 0, total_calls = 0;
+        for (std::size_t i = 0; i != j; ++i)
+        {
+            auto const& r = full.results()[i];
+            total_calls += r.calls();
+            if (r.non_zero_calls() == 0) { continue; }
+            // the fabricated result is taken by its construction values: the model must not share the conversion under test
+            long double const var = (i == 0) ? S0 * S0 : static_cast<long double>(r.variance());
+            long double const val = (i == 0) ? E0 : static_cast<long double>(r.value());
+            sw += 1.0L / var;
+            swe += val / var;
+        }
+        long double const E = swe / sw, S = 1.0L / std::sqrt(sw);
+        long double const rel = S / std::fabs(E);
+        long double const kappa = 1.0L + E * E / ((total_calls - 1.0L) * S * S);
+        long double const band = std::max<long double>(1e-6L, 256 * vf::eps<T>() * kappa);
+        if (!(rel == rel) || std::fabs(rel - target) <= band * static_cast<long double>(target)) { ambiguous = true; break; }
+        if (rel <= static_cast<long double>(target)) { must_stop = j; break; }
+    }
+    if (ambiguous) { c.label("boundary-ambiguous-not-judged"); return; }
+    Chk const out = R::run(cfg, start, calls, hep::callback<Chk>(hep::callback_mode::silent, "", target));
+    VF_CHECK(c, out.results().size() == must_stop, "C12:stop-position", "target " << vf::show(target) << " after a campaign of " << N0 << " calls: the run stopped after "
+        << out.results().size() - 1 << " new iterations, the combined relative error first reaches the target after " << must_stop - 1 << " (of " << n << ")");
+    judged = true;
+    ++c.sub;
+}
+
 template <typename T>
 void run_t(vf::Ctx& c)
 {
@@ -224,6 +279,14 @@ void run_t(vf::Ctx& c)
         std::size_t const k0 = n ? t.pick(std::min<std::size_t>(n, 3)) : 0;
         c.desc << "builtin target=" << vf::show(target) << " k0=" << k0 << " calls=" << vf::show(calls) << ' ' << cfg.describe();
         bool judged = false;
+        bool const long_campaign = cfg.kind == vf::PLAIN && !std::is_same<T, float>::value && t.pick(3) == 0;
+        if (long_campaign)
+        {
+            c.desc << " after-5e9-calls";
+            c.label("after-long-campaign");
+            builtin_with_target_after_long_campaign<T, vf::Plain<T, E>>(c, cfg, calls, target, judged);
+        }
+        else
         dispatch([&](auto r) { builtin_with_target<T, decltype(r)>(c, cfg, calls, target, k0, judged); });
         c.label("builtin-positive-target");
         if (k0) { c.label("resumed-checkpoint"); }
